@@ -245,8 +245,10 @@ pub fn main(def: CheckDef) -> ! {
         std::fs::write(&f, serde_json::to_vec(&v["replay"]).unwrap()).unwrap();
         replay_file = Some(f);
     }
+    let mut partial = false;
     if let Some(only) = arg_after(&args, "--only") {
         specs.retain(|s| s.name.contains(&only));
+        partial = true; // a developer convenience: never writes evidence
     }
     let jobs: usize = std::env::var("VERIF_JOBS").ok().and_then(|s| s.parse().ok()).unwrap_or(14);
     let default_budget = if ctx.quick() { 40.0 } else { 1500.0 };
@@ -340,7 +342,7 @@ pub fn main(def: CheckDef) -> ! {
         let _ = std::fs::remove_file(f);
     }
     let results: Vec<PartResult> = results.into_iter().map(|r| r.unwrap()).collect();
-    let code = finish(&def, &ctx, &specs, &results, t0.elapsed().as_secs_f64(), replay_file.is_some());
+    let code = finish(&def, &ctx, &specs, &results, t0.elapsed().as_secs_f64(), replay_file.is_some() || partial);
     std::process::exit(code);
 }
 
